@@ -9,3 +9,4 @@ pub mod pipes;
 pub mod session;
 pub mod shutdown;
 pub mod socks;
+pub mod tls;
